@@ -32,6 +32,9 @@ func jstr(s string) json.RawMessage {
 	return b
 }
 
+// garbageSig is 64 bytes of unpadded base64 that verify under no key.
+var garbageSig = strings.Repeat("Bw", 43)[:86]
+
 const b43 = "AbCdEfGhIjKlMnOpQrStUvWxYz0123456789-_AbCdE" // 43 URL-safe characters
 
 // idString realises an identifier class for a sigil ('!', '@', '$'; 0 = bare server name).
@@ -140,6 +143,33 @@ func jsonClass(cls string) (json.RawMessage, bool) {
 		return json.RawMessage(`9223372036854775807`), true
 	case "int64_over":
 		return json.RawMessage(`9223372036854775808`), true
+	case "int64_min":
+		return json.RawMessage(`-9223372036854775808`), true
+	case "int64_under":
+		return json.RawMessage(`-9223372036854775809`), true
+	case "int_2p53p1":
+		return json.RawMessage(`9007199254740993`), true
+	case "uint64_max":
+		return json.RawMessage(`18446744073709551615`), true
+	case "exp_upper":
+		return json.RawMessage(`1E2`), true
+	case "exp_neg":
+		return json.RawMessage(`1E-05`), true
+	case "plus":
+		return json.RawMessage(`+5`), true
+	case "leading_zero":
+		return json.RawMessage(`007`), true
+	// shapes of a signatures object: several keys / servers, one of them unusable
+	case "sig_two_keys":
+		return json.RawMessage(`{"hs1":{"ed25519:1":"` + garbageSig + `","ed25519:2":"` + garbageSig + `"}}`), true
+	case "sig_two_servers":
+		return json.RawMessage(`{"hs1":{"ed25519:1":"` + garbageSig + `"},"hs2":{"ed25519:1":"` + garbageSig + `"}}`), true
+	case "sig_good_and_short":
+		return json.RawMessage(`{"hs1":{"ed25519:1":"AAAA","ed25519:2":"` + garbageSig + `"},"hs2":{"ed25519:1":""}}`), true
+	case "sig_padded":
+		return json.RawMessage(`{"hs1":{"ed25519:1":"` + garbageSig + `=="}}`), true
+	case "sig_urlsafe":
+		return json.RawMessage(`{"hs1":{"ed25519:1":"` + strings.Repeat("-_", 43) + `"}}`), true
 	case "bigint":
 		return json.RawMessage(`1` + strings.Repeat("0", 400)), true
 	case "bigfloat":
@@ -197,7 +227,7 @@ func sigilOf(kind string) (byte, bool) {
 		return '!', true
 	case "user", "userkey":
 		return '@', true
-	case "event":
+	case "event", "eventid":
 		return '$', true
 	case "server":
 		return 0, true
@@ -216,6 +246,27 @@ func classValue(kind, cls string, valid json.RawMessage) (raw json.RawMessage, a
 			return nil, true
 		}
 		return valid, false
+	}
+	switch cls {
+	case "upper_valid", "escaped_valid": // unusual spellings of the well-formed value
+		var v string
+		if valid == nil || json.Unmarshal(valid, &v) != nil {
+			return nil, true
+		}
+		if cls == "upper_valid" {
+			return jstr(strings.ToUpper(v)), false
+		}
+		var b strings.Builder
+		b.WriteByte('"')
+		for _, r := range v {
+			if r < 0x10000 {
+				fmt.Fprintf(&b, `\u%04X`, r)
+			} else {
+				b.WriteString(string(r))
+			}
+		}
+		b.WriteByte('"')
+		return json.RawMessage(b.String()), false
 	}
 	if sg, ok := sigilOf(kind); ok {
 		if s, ok := idString(sg, cls); ok {
